@@ -132,7 +132,8 @@ def read_classes(w):
     return cls
 
 
-MULTISET_FILES = ("read_assignments.tsv", "corrected_reads.bed", "gene_counts.tsv", "gene_tpm.tsv", "transcript_counts.tsv", "transcript_tpm.tsv")
+MULTISET_FILES = ("read_assignments.tsv", "corrected_reads.bed", "gene_counts.tsv", "gene_tpm.tsv", "transcript_counts.tsv", "transcript_tpm.tsv",
+                  "OUT.exon_counts.tsv", "OUT.intron_counts.tsv", "read_assignments.SQANTI-like.tsv")
 
 
 def bam_case(args):
@@ -145,7 +146,7 @@ def bam_case(args):
     paths = syn.materialise(w, d)
     seqs = syn.genome_sequences(w)
     ref_out = os.path.join(d, "ref")
-    rc = run.run_isoquant(run.base_argv(paths, ref_out, extra=["--no_model_construction"]), paths["home"], os.path.join(d, "ref.txt"))
+    rc = run.run_isoquant(run.base_argv(paths, ref_out, extra=["--no_model_construction", "--count_exons", "--sqanti_output"]), paths["home"], os.path.join(d, "ref.txt"))
     if rc != 0:
         return [((), [("reference-run-failed", "exit %d" % rc)])], 1
     t0 = {k: v for k, v in run.read_tree(os.path.join(ref_out, "OUT")).items() if any(k.endswith(x) or k.endswith(x + ".gz") for x in MULTISET_FILES)}
@@ -165,7 +166,7 @@ def bam_case(args):
         out = os.path.join(d, "out")
         shutil.rmtree(out, ignore_errors=True)
         argv = ["--output", out, "--reference", paths["ref"], "--bam"] + bams + ["--data_type", "nanopore", "--prefix", "OUT",
-                "--threads", "1", "--genedb", paths["gtf"], "--complete_genedb", "--no_model_construction"]
+                "--threads", "1", "--genedb", paths["gtf"], "--complete_genedb", "--no_model_construction", "--count_exons", "--sqanti_output"]
         rc = run.run_isoquant(argv, paths["home"], os.path.join(d, "o.txt"))
         n += 1
         errs = []
